@@ -192,7 +192,7 @@ def run(ctx):
     # directed: every exception class once in a fixed small pipeline where the failing function is kept (nested keep, and keep at
     # the root): the exception that comes out is the very object that was raised, and nothing is stored or committed
     real = pipeline.real_runner()
-    for ki, kind in enumerate(KINDS):
+    for ki, kind in enumerate(KINDS + ["FileNotFoundError:errno", "PermissionError:errno", "OSError:errno"]):
         base = tempfile.mkdtemp(prefix="ddsverif_c10k_")
         pkg = "c10k_%d_%d" % (os.getpid(), ki)
         try:
@@ -213,7 +213,9 @@ def run(ctx):
                 res.count("directed_kinds")
                 res.nontrivial("directed kind %s %s" % (kind, entry["kind"]))
                 e = r["error"]
-                if e is None or e.get("kind") != "exc" or e.get("cls") != kind or not e.get("same_object") or e.get("token") != "tok%d" % ki:
+                want_cls = kind.split(":")[0]
+                if e is None or e.get("kind") != "exc" or e.get("cls") != want_cls or not e.get("same_object") or (
+                        ":" not in kind and e.get("token") != "tok%d" % ki):
                     res.violations.append({"what": "a kept function raises %s('tok%d'); what comes out of dds is %s (the same exception object is expected)" % (kind, ki, e),
                                            "input": {"source": src, "entry": entry}, "kf": None})
                     break
